@@ -4,16 +4,16 @@ From PP Require Import Doc Dispatch DispatchProofs StateIndep Lazy LazyCell Pfor
 
 (** (1) Printer lookup.  Whatever was printed or queried before - any values,
     in any order, any number of times, including the first prints that promote
-    printers registered lazily by name - the printer chosen for a class depends
+    printers registered lazily by name - the printer chosen for an instance i of a class c depends
     only on the registrations made so far: two histories with the same
     registrations choose the same printer. *)
 Theorem C19_prints_leave_no_trace :
-  forall (mro : cls -> list cls) (accepts : pd -> cls -> bool),
+  forall (mro : cls -> list cls) (accepts : pd -> nat -> bool),
     (forall c, exists tl, mro c = c :: tl) ->
-    forall h1 h2 c,
+    forall h1 h2 c i,
       forallb cd_query h1 = true -> forallb cd_query h2 = true ->
       filter is_reg_op h1 = filter is_reg_op h2 ->
-      last (drun mro accepts dinit (h1 ++ [Print c])) OUnit = last (drun mro accepts dinit (h2 ++ [Print c])) OUnit.
+      last (drun mro accepts dinit (h1 ++ [Print c i])) OUnit = last (drun mro accepts dinit (h2 ++ [Print c i])) OUnit.
 Proof. exact prints_leave_no_trace. Qed.
 Print Assumptions C19_prints_leave_no_trace.
 
